@@ -1,4 +1,10 @@
 import props_parser
+import props_lalr
 CHECKS = {
     "C01": props_parser.c01,
+    "C03": props_parser.c03,
+    "C16": props_parser.c16,
+    "C09": props_parser.c09,
+    "C04": props_lalr.c04,
+    "C05": props_lalr.c05,
 }
